@@ -205,3 +205,21 @@ def apply(program, body_cls, strip):
         for clo in program.closures_of.pop(hid, []):
             program.bodies.pop(clo, None)
     return done
+
+
+def inlined_view(program, body, callee_names, body_cls, strip):
+    """a Body for `body` with its direct calls to the named crate functions spliced in (rule-local view; the program is not
+    changed). Used by rules that are stated over one function and should not care whether a private step of it is a helper"""
+    sites = {}
+    for bi, t in body.calls():
+        f = t.get("func", {}).get("c") if isinstance(t.get("func"), dict) else None
+        if not f:
+            continue
+        target = strip(f.get("res_full") or f.get("res") or f.get("fn_full") or f.get("fn") or "")
+        if target in callee_names:
+            cb = program.get(target)
+            if cb is not None and cb.id != body.id:
+                sites[bi] = cb.rec
+    if not sites:
+        return body
+    return body_cls(inline_rec(body.rec, sites))
